@@ -7,13 +7,18 @@ import SlugModel.Props.C15
 abstract tree keyed by relative paths; `unpack` (Unpack.lean) is the model of `Packer.Unpack` on the
 filesystem model (FS.lean).  Property theorems only; the simulation lives in `Lemmas/UntarRefine`.
 
-Two hypotheses are added to `WellFormedArchive` (both are needed, see the closed counterexamples
-`C15_cex_typex_creates_parent`, `C15_cex_typex_illegal` below and the remark on depth):
+Two hypotheses are added to `WellFormedArchive` (both are needed, see the closed counterexample
+`C15_cex_typex_illegal` below and the remark on depth):
 
-* `UrXFlat es` — a pax header entry (`x`/`g`) has at most one path component.  The code runs
-  `NewUnpackInfo` (the `Lstat` walk) and `MkdirAll(Dir(path))` *before* the type dispatch, so a pax
-  entry named `a/b` creates the directory `a` (or is refused when `a` is a file), whereas the
-  specification ignores pax entries.
+* `UrXFree es` — a pax header entry (`x`/`g`) does not pass through a non-directory: the proper
+  prefixes of its path are free or directories in the tree read so far.  This is the clause
+  `WellFormedArchive.no_conflict` has for directory, link and file entries; the specification
+  ignores pax entries altogether, but the code runs `NewUnpackInfo` (the `Lstat` walk) for every
+  entry type, so a pax entry named `f/g/h` is refused when `f` is a file or a link.  Nothing else is
+  asked of a pax entry: once `NewUnpackInfo` has accepted it, it is skipped before anything is
+  created (`C15_typex_creates_nothing`), as the specification says.  `UrXFlat es` ("at most one path
+  component", the hypothesis of the earlier version, when `MkdirAll(Dir(path))` still ran for pax
+  entries) is a decidable sufficient condition (`UrXFlat.free`), `urXFreeCheck` another.
 * `UrShallow dst es` — `|dst| + |name| < resolveFuel` (= 64) components for every entry.  This is a
   limitation of the fuelled filesystem model (`FS.resolve` spends one unit of fuel per component
   and answers `ELOOP` when it runs out), not of the code.
@@ -28,6 +33,31 @@ def UrXFlat (es : List Entry) : Prop :=
 
 instance (es : List Entry) : Decidable (UrXFlat es) := by unfold UrXFlat; infer_instance
 
+/-- a named pax header entry does not pass through a non-directory: every proper prefix of its path
+is free or a directory in the tree read before it (what `WellFormedArchive.no_conflict` says about
+the prefixes of directory, link and file entries) -/
+def UrXFree (es : List Entry) : Prop :=
+  ∀ (pre : List Entry) (e : Entry) (post : List Entry) (st : UntarState),
+    es = pre ++ e :: post → pre.foldlM untarEntry urInit = some st → e.name ≠ [] → e.isTypeX = true →
+      ∀ q ∈ properPrefixes (entryRel e.name), ∀ n, treeGet st.tree q = some n → ∃ perm mt, n = .dir perm mt
+
+/-- pax entries with at most one component have no proper prefixes -/
+theorem UrXFlat.free {es : List Entry} (h : UrXFlat es) : UrXFree es := by
+  intro pre e post st hsplit _ hn hX q hq
+  have hmem : e ∈ es := by rw [hsplit]; simp
+  have hlen := h e hmem hX hn
+  obtain ⟨hq0, hpre⟩ := (ur_mem_properPrefixes _ q).mp hq
+  have hdl0 : (entryRel e.name).dropLast = [] := by
+    apply List.eq_nil_of_length_eq_zero; rw [List.length_dropLast]; omega
+  rw [hdl0] at hpre
+  exact absurd (List.prefix_nil.mp hpre) hq0
+
+/-- an archive without pax entries -/
+theorem UrXFree.of_no_typeX {es : List Entry} (h : ∀ e ∈ es, e.isTypeX = false) : UrXFree es := by
+  intro pre e post st hsplit _ _ hX
+  have hmem : e ∈ es := by rw [hsplit]; simp
+  rw [h e hmem] at hX; cases hX
+
 /-- every extraction path has fewer components than the resolver has fuel -/
 def UrShallow (dst : Str) (es : List Entry) : Prop :=
   ∀ e ∈ es, (pathSegs dst).length + (entryRel e.name).length < resolveFuel
@@ -35,14 +65,21 @@ def UrShallow (dst : Str) (es : List Entry) : Prop :=
 instance (dst : Str) (es : List Entry) : Decidable (UrShallow dst es) := by unfold UrShallow; infer_instance
 
 /-- the per-entry reading of `WellFormedArchive` used by the simulation -/
-theorem ur_entryOK_of_wf {dst : Str} {es : List Entry} (hwf : WellFormedArchive es) (hx : UrXFlat es)
+theorem ur_entryOK_of_wf {dst : Str} {es : List Entry} (hwf : WellFormedArchive es) (hx : UrXFree es)
     (hsh : UrShallow dst es) :
     ∀ pre e post ust1, es = pre ++ e :: post → pre.foldlM untarEntry urInit = some ust1 →
       e.name ≠ [] → UrEntryOK (pathSegs dst) ust1.tree e := by
   intro pre e post ust1 hsplit hpre hn
   have hmem : e ∈ es := by rw [hsplit]; simp
-  refine ⟨hwf.names_plain e hmem hn, ?_, fun h => hx e hmem h hn, ?_, ?_, fun h => hwf.links_good e hmem h hn⟩
+  refine ⟨hwf.names_plain e hmem hn, ?_, ?_, ?_, ?_, fun h => hwf.links_good e hmem h hn⟩
   · rw [List.length_append]; exact hsh e hmem
+  · intro hX q hq0 hq
+    cases hg : treeGet ust1.tree q with
+    | none => exact Or.inl rfl
+    | some n =>
+      obtain ⟨a, b, hn'⟩ := hx pre e post ust1 hsplit hpre hn hX q
+        ((ur_mem_properPrefixes _ q).mpr ⟨hq0, hq⟩) n hg
+      exact Or.inr ⟨a, b, by rw [hn']⟩
   · intro hk
     obtain ⟨h1, _⟩ := hwf.no_conflict pre e post ust1 hsplit hpre hn hk
     intro q hq0 hq
@@ -61,7 +98,7 @@ theorem ur_entryOK_of_wf {dst : Str} {es : List Entry} (hwf : WellFormedArchive 
 
 /-- **C15_refines_partial.** Let `dst` be an absolute clean path other than `/` that is an existing,
 empty, real directory of `fs` (all its components are directories; nothing is bound strictly below
-it).  For a well-formed archive `es` (plus `UrXFlat`, `UrShallow`), without reader fault and
+it).  For a well-formed archive `es` (plus `UrXFree`, `UrShallow`), without reader fault and
 allow-list, privileged or not: if the sequential reading gives the tree `t`, then `Unpack` succeeds
 and below `dst` the resulting filesystem *is* `t` — kind, permission bits, modification time,
 content and link target of every path, and nothing else (`none` on both sides elsewhere).  The
@@ -69,7 +106,7 @@ destination directory itself (`r = []`) is excluded: its own time is touched by 
 theorem C15_refines_partial {cwd dst : Str} {priv : Bool} {fs : FS} {es : List Entry} {t : Tree}
     (hdst : DstOK dst) (hreal : RealDir fs (pathSegs dst))
     (hempty : ∀ q, pathSegs dst <+: q → q ≠ pathSegs dst → fs.get q = none)
-    (hwf : WellFormedArchive es) (hx : UrXFlat es) (hsh : UrShallow dst es) (hu : untar es = some t) :
+    (hwf : WellFormedArchive es) (hx : UrXFree es) (hsh : UrShallow dst es) (hu : untar es = some t) :
     (unpack cwd [] priv dst .none fs es).2 = .ok ∧
     ∀ r, r ≠ [] → ((unpack cwd [] priv dst .none fs es).1).get (pathSegs dst ++ r) = treeGet t r :=
   have h := ur_unpack_refines (cwd := cwd) (priv := priv) hdst hreal hempty (ur_entryOK_of_wf hwf hx hsh) hu
@@ -83,7 +120,7 @@ that.) -/
 theorem C15_refines_root_partial {cwd dst : Str} {priv : Bool} {fs : FS} {es : List Entry} {t : Tree}
     (hdst : DstOK dst) (hreal : RealDir fs (pathSegs dst))
     (hempty : ∀ q, pathSegs dst <+: q → q ≠ pathSegs dst → fs.get q = none)
-    (hwf : WellFormedArchive es) (hx : UrXFlat es) (hsh : UrShallow dst es) (hu : untar es = some t)
+    (hwf : WellFormedArchive es) (hx : UrXFree es) (hsh : UrShallow dst es) (hu : untar es = some t)
     (hroot : ∃ e ∈ es, e.name ≠ [] ∧ entryRel e.name = [] ∧ e.isDir = true) :
     ((unpack cwd [] priv dst .none fs es).1).get (pathSegs dst) = treeGet t [] :=
   (ur_unpack_refines (cwd := cwd) (priv := priv) hdst hreal hempty (ur_entryOK_of_wf hwf hx hsh) hu).2.2 hroot
@@ -319,6 +356,63 @@ theorem wfCheck_sound {es : List Entry} (h : wfCheck es = true) : WellFormedArch
       refine ⟨h1, h2, _, _, ?_, h3, h4⟩
       rw [← ur_takeWhile_replicate, List.takeWhile_append_dropWhile]
 
+/-- a decidable check of `UrXFree` along the sequential reading -/
+def urXFreeGo : UntarState → List Entry → Bool
+  | _, [] => true
+  | st, e :: rest =>
+    (decide (e.name = []) || !e.isTypeX ||
+      (properPrefixes (entryRel e.name)).all (fun q => urDirOrNoneB (treeGet st.tree q))) &&
+    (match untarEntry st e with
+     | none => true
+     | some st' => urXFreeGo st' rest)
+
+def urXFreeCheck (es : List Entry) : Bool :=
+  urXFreeGo { tree := [([], .dir 0o755 nowT)], deferred := [] } es
+
+theorem urXFreeGo_sound : ∀ (es : List Entry) (st : UntarState), urXFreeGo st es = true →
+    ∀ pre e post st1, es = pre ++ e :: post → pre.foldlM untarEntry st = some st1 → e.name ≠ [] →
+      e.isTypeX = true →
+      (properPrefixes (entryRel e.name)).all (fun q => urDirOrNoneB (treeGet st1.tree q)) = true := by
+  intro es
+  induction es with
+  | nil => intro st _ pre e post st1 h; cases pre <;> cases h
+  | cons x rest ih =>
+    intro st hgo pre e post st1 hsplit hpre hn hk
+    rw [urXFreeGo, Bool.and_eq_true] at hgo
+    obtain ⟨hhead, htail⟩ := hgo
+    cases pre with
+    | nil =>
+      simp only [List.nil_append, List.cons.injEq] at hsplit
+      obtain ⟨rfl, _⟩ := hsplit
+      have : some st = some st1 := hpre
+      cases this
+      simp only [Bool.or_eq_true, decide_eq_true_eq, Bool.not_eq_true'] at hhead
+      rcases hhead with (h | h) | h
+      · exact absurd h hn
+      · rw [hk] at h; cases h
+      · exact h
+    | cons y pre' =>
+      simp only [List.cons_append, List.cons.injEq] at hsplit
+      obtain ⟨rfl, hrest⟩ := hsplit
+      rw [List.foldlM_cons] at hpre
+      cases hu : untarEntry st x with
+      | none => rw [hu] at hpre; cases hpre
+      | some st' =>
+        rw [hu] at hpre htail
+        exact ih st' htail pre' e post st1 hrest hpre hn hk
+
+theorem urXFreeCheck_sound {es : List Entry} (h : urXFreeCheck es = true) : UrXFree es := by
+  intro pre e post st hsplit hpre hn hX q hq n hg
+  have hc := urXFreeGo_sound es _ h pre e post st hsplit hpre hn hX
+  rw [List.all_eq_true] at hc
+  have := hc q hq
+  rw [hg] at this
+  cases n with
+  | dir a b => exact ⟨a, b, rfl⟩
+  | file a b c => simp [urDirOrNoneB] at this
+  | link t => simp [urDirOrNoneB] at this
+  | special => simp [urDirOrNoneB] at this
+
 /-- "nothing is bound strictly below `dstP`", checked on the bindings -/
 theorem ur_empty_of_check {fs : FS} {dstP : PPath} (h : ∀ b ∈ fs, dstP <+: b.1 → b.1 = dstP) :
     ∀ q, dstP <+: q → q ≠ dstP → fs.get q = none := by
@@ -327,25 +421,49 @@ theorem ur_empty_of_check {fs : FS} {dstP : PPath} (h : ∀ b ∈ fs, dstP <+: b
   | none => rfl
   | some n => exact absurd (h (q, n) (get_mem hg) hq) hne
 
-/-! ## counterexamples: why `UrXFlat` is needed -/
+/-! ## pax header entries: skipped before anything is created; why `UrXFree` is needed -/
 
 def c15rPax (name : String) : Entry := ⟨name.toList, tXHeader, 0o644, 0, [], []⟩
 
-/-- **C15_cex_typex_creates_parent.** A pax header entry named `a/b` is a well-formed archive and the
-sequential reading ignores it, but `Unpack` (successfully) creates the directory `a`: `MkdirAll` on
-the directory of the extraction path runs before the type dispatch. -/
-theorem C15_cex_typex_creates_parent :
-    WellFormedArchive [c15rPax "a/b"] ∧ UrShallow cexDst [c15rPax "a/b"] ∧
+/-- **C15_typex_creates_nothing.** A named pax header entry (`x`/`g`) that `NewUnpackInfo` accepts is
+skipped: the step returns the state it was given — no file, no directory, not even the parent
+directories of the entry's name — and lets the loop continue.  Any allow-list, privilege level, body.
+(Before the repair of the code `MkdirAll(Dir(path))` ran ahead of the type dispatch and a pax entry
+named `a/b` created the directory `a`: the former observation `C15_cex_typex_creates_parent`.) -/
+theorem C15_typex_creates_nothing (cwd : Str) (allow : List Str) (priv : Bool) (dst : Str) (st : UState)
+    (e : Entry) (body : Str) (be : Bool) (path : Str)
+    (hn : e.name ≠ []) (hx : e.isTypeX = true) (hi : newUnpackInfo st.fs dst e = some path) :
+    unpackEntry cwd allow priv dst st e body be = (st, none) :=
+  unpackEntry_typeX cwd allow priv dst st e body be path hn hx hi
+
+/-- … whatever `NewUnpackInfo` says, the filesystem and the deferred directory list are unchanged
+(a refused entry is an illegal-slug error) -/
+theorem C15_typex_state_unchanged (cwd : Str) (allow : List Str) (priv : Bool) (dst : Str) (st : UState)
+    (e : Entry) (body : Str) (be : Bool) (hx : e.isTypeX = true) :
+    (unpackEntry cwd allow priv dst st e body be).1 = st := by
+  by_cases hn : e.name = []
+  · rw [unpackEntry_nil_name cwd allow priv dst st e body be hn]
+  · cases hi : newUnpackInfo st.fs dst e with
+    | none => rw [unpackEntry_info_none cwd allow priv dst st e body be hn hi]
+    | some path => rw [unpackEntry_typeX cwd allow priv dst st e body be path hn hx hi]
+
+/-- **C15_typex_creates_nothing_example.** The closed example of the former
+`C15_cex_typex_creates_parent`: a pax header entry named `a/b` is a well-formed archive, the
+sequential reading ignores it, and `Unpack` succeeds and leaves the filesystem exactly as it was —
+the directory `a` is not created and the destination is not touched. -/
+theorem C15_typex_creates_nothing_example :
+    WellFormedArchive [c15rPax "a/b"] ∧ UrXFree [c15rPax "a/b"] ∧ UrShallow cexDst [c15rPax "a/b"] ∧
     untar [c15rPax "a/b"] = some [([], .dir 0o755 nowT)] ∧
-    unpack cexCwd [] true cexDst .none cexFs0 [c15rPax "a/b"] =
-      ([(cexDstP ++ ["a".toList], .dir 0o755 nowT), (cexDstP, .dir 0o755 nowT),
-        (cexDstP, .dir 0o755 0), (cexTP, .dir 0o755 0)], .ok) ∧
+    unpack cexCwd [] true cexDst .none cexFs0 [c15rPax "a/b"] = (cexFs0, .ok) ∧
+    (unpack cexCwd [] true cexDst .none cexFs0 [c15rPax "a/b"]).1.get (cexDstP ++ ["a".toList]) = none ∧
     treeGet [([], .dir 0o755 nowT)] ["a".toList] = none :=
-  ⟨wfCheck_sound (by decide), by decide, by decide, by decide, by decide⟩
+  ⟨wfCheck_sound (by decide), urXFreeCheck_sound (by decide), by decide, by decide, by decide, by decide,
+    by decide⟩
 
 /-- **C15_cex_typex_illegal.** A pax header entry whose name passes through a file: the archive is
 well-formed and the sequential reading ignores the entry, but `Unpack` refuses the archive (the
-`Lstat` walk of `NewUnpackInfo` runs for every entry type). -/
+`Lstat` walk of `NewUnpackInfo` runs for every entry type) — the reason for `UrXFree`, which this
+archive does not satisfy. -/
 theorem C15_cex_typex_illegal :
     WellFormedArchive [cexReg "f" "x" 0o644 1, c15rPax "f/g/h"] ∧
     UrShallow cexDst [cexReg "f" "x" 0o644 1, c15rPax "f/g/h"] ∧
@@ -354,11 +472,20 @@ theorem C15_cex_typex_illegal :
     (unpack cexCwd [] true cexDst .none cexFs0 [cexReg "f" "x" 0o644 1, c15rPax "f/g/h"]).2 = .illegal :=
   ⟨wfCheck_sound (by decide), by decide, by decide, by decide⟩
 
+/-- … and indeed `UrXFree` fails for it -/
+theorem C15_cex_typex_illegal_not_free : ¬ UrXFree [cexReg "f" "x" 0o644 1, c15rPax "f/g/h"] := by
+  intro h
+  obtain ⟨a, b, hab⟩ := h [cexReg "f" "x" 0o644 1] (c15rPax "f/g/h") []
+    { tree := [(["f".toList], .file 0o644 1 "x".toList), ([], .dir 0o755 nowT)], deferred := [] }
+    rfl rfl (by decide) (by decide) ["f".toList] (by decide) (.file 0o644 1 "x".toList) (by decide)
+  cases hab
+
 /-! ## non-vacuity: a concrete well-formed archive -/
 
 /-- child before its parents (and read-only), the parent directory afterwards, the same file again
 (overwrite of a read-only file), a link with a `..`, a leading `/`, a leading `./` with a trailing
-`/`, a pax header, and an entry for the destination itself -/
+`/`, a pax header, a pax header with a directory part that no entry creates (not `UrXFlat`, but
+`UrXFree`: nothing is created for it), and an entry for the destination itself -/
 def c15rEs : List Entry :=
   [ cexReg "d/sub/f" "one" 0o444 3,
     cexDir "d" 0o750 9,
@@ -367,6 +494,7 @@ def c15rEs : List Entry :=
     cexReg "/top" "t" 0o600 5,
     cexDir "./d/sub/" 0o700 8,
     c15rPax "pax_global_header",
+    c15rPax "d/sub/PaxHeaders.0/f",
     cexDir "." 0o711 6 ]
 
 def c15rP (l : List String) : RelPath := l.map String.toList
@@ -392,8 +520,8 @@ theorem c15r_untar : untar c15rEs = some c15rTree := by decide
 
 theorem c15r_hyps : DstOK cexDst ∧ RealDir cexFs0 (pathSegs cexDst) ∧
     (∀ q, pathSegs cexDst <+: q → q ≠ pathSegs cexDst → cexFs0.get q = none) ∧
-    UrXFlat c15rEs ∧ UrShallow cexDst c15rEs := by
-  refine ⟨cex_hyps.1, ?_, ?_, by decide, by decide⟩
+    UrXFree c15rEs ∧ UrShallow cexDst c15rEs := by
+  refine ⟨cex_hyps.1, ?_, ?_, urXFreeCheck_sound (by decide), by decide⟩
   · rw [cex_dstP]; exact (fsCheck_sound cex_hyps.2.1).1
   · rw [cex_dstP]; exact ur_empty_of_check (by decide)
 
@@ -423,11 +551,15 @@ example : treeGet c15rTree (c15rP ["d","sub"]) = some (.dir 0o700 8) := by decid
 example : treeGet c15rTree (c15rP ["d","l"]) = some (.link "../d/sub/f".toList) := by decide
 example : treeGet c15rTree (c15rP ["top"]) = some (.file 0o600 5 "t".toList) := by decide
 example : treeGet c15rTree (c15rP ["pax_global_header"]) = none := by decide
+example : treeGet c15rTree (c15rP ["d","sub","PaxHeaders.0"]) = none := by decide
+example : ¬ UrXFlat c15rEs := by decide
 
 /-- and, independently of the theorem, the model run itself on two of them (unprivileged) -/
 example : ((unpack cexCwd [] false cexDst .none cexFs0 c15rEs).1).get (cexDstP ++ c15rP ["d","sub","f"]) =
     some (.file 0o640 4 "two".toList) := by decide
 example : (unpack cexCwd [] false cexDst .none cexFs0 c15rEs).2 = .ok := by decide
+example : ((unpack cexCwd [] false cexDst .none cexFs0 c15rEs).1).get (cexDstP ++ c15rP ["d","sub","PaxHeaders.0"]) =
+    none := by decide
 
 /-- the error clause is not vacuous: a hard link makes both sides fail -/
 example : untar (c15rEs ++ [c15hard]) = none := by decide
